@@ -13049,8 +13049,8 @@ func E11EmptyCloseKeepsPosition(c *core.Ctx, r *core.Report) {
 	}
 	good := false
 	var flag types.Object
-	for _, st := range zcase.Body {
-		switch x := st.(type) {
+	ast.Inspect(zcase, func(m ast.Node) bool {
+		switch x := m.(type) {
 		case *ast.IfStmt:
 			if callsPos(x.Cond) && callsMoveTo(x.Body) {
 				good = true
@@ -13062,7 +13062,9 @@ func E11EmptyCloseKeepsPosition(c *core.Ctx, r *core.Report) {
 				}
 			}
 		}
-	}
+		return true
+	})
+	var reissue *ast.IfStmt
 	if !good && flag != nil {
 		ast.Inspect(fd.Body, func(m ast.Node) bool {
 			is, ok := m.(*ast.IfStmt)
@@ -13072,11 +13074,55 @@ func E11EmptyCloseKeepsPosition(c *core.Ctx, r *core.Report) {
 			ast.Inspect(is.Cond, func(k ast.Node) bool {
 				if id, ok := k.(*ast.Ident); ok && core.ObjOf(info, id) == flag {
 					good = true
+					reissue = is
 				}
 				return true
 			})
 			return true
 		})
+	}
+	// a close that follows such a close: the flag design loses the position again unless the MoveTo is also
+	// re-issued in front of a Z, or the Z case consults the flag (or a copy taken before it is reset)
+	if reissue != nil {
+		key2 := "canvas.ParseSVGPath|case 'Z'|position kept through a repeated close"
+		r.Count("E11.empty-close-keeps-position", 1)
+		excludesZ := false
+		ast.Inspect(reissue.Cond, func(k ast.Node) bool {
+			if e, ok := k.(ast.Expr); ok {
+				if v, ok := core.ConstInt(info, e); ok && (v == 'Z' || v == 'z') {
+					excludesZ = true
+				}
+			}
+			return true
+		})
+		copies := map[types.Object]bool{flag: true}
+		ast.Inspect(fd.Body, func(k ast.Node) bool {
+			if as, ok := k.(*ast.AssignStmt); ok && len(as.Lhs) == 1 && len(as.Rhs) == 1 {
+				if rid, ok := core.Unparen(as.Rhs[0]).(*ast.Ident); ok && core.ObjOf(info, rid) == flag {
+					if lid, ok := as.Lhs[0].(*ast.Ident); ok {
+						copies[core.ObjOf(info, lid)] = true
+					}
+				}
+			}
+			return true
+		})
+		consulted := false
+		ast.Inspect(zcase, func(k ast.Node) bool {
+			if is, ok := k.(*ast.IfStmt); ok {
+				ast.Inspect(is.Cond, func(q ast.Node) bool {
+					if id, ok := q.(*ast.Ident); ok && copies[core.ObjOf(info, id)] {
+						consulted = true
+					}
+					return true
+				})
+			}
+			return true
+		})
+		if !excludesZ || consulted {
+			r.OK("E11.empty-close-keeps-position", key2, c.Pos(zcase.Pos()), "")
+		} else {
+			r.Fail("E11.empty-close-keeps-position", key2, c.Pos(zcase.Pos()), "the MoveTo is not re-issued in front of a Z, and the Z case does not consult the flag either: a second close (`M7 7zzL9 9`) takes the position from the builder, which has forgotten the removed sub-path, and the line starts at the origin or at the start of the previous sub-path")
+		}
 	}
 	if good {
 		r.OK("E11.empty-close-keeps-position", key, c.Pos(zcase.Pos()), "")
